@@ -12,6 +12,12 @@ COMMON_NOTE = (
 )
 
 CHECKS = {
+    "C09": dict(
+        technique="bounded-exhaustive enumeration of gophermap files (all line sequences up to length 3 over 16 line shapes x terminators x placements) rendered by the implementation, against a reference reading of the manual and a cross-protocol differential",
+        text="Every gophermap of <=3 lines over 16 line shapes (info text, blank, 1-4 fields, empty selector or trailing empty fields, absolute/relative/URL: selectors, remote hosts, explicit info type, search) with LF/CRLF/unterminated endings, placed in the root, at depth 1 and 2 and as a *.gophermap file, "
+             "is listed through plain Gopher and compared entry by entry with the documented reading; all sequences of <=2 lines are also listed through 9 protocol forms and compared with the Gopher view.",
+        design_ref="DESIGN.md 3/C09",
+    ),
     "C05": dict(
         technique="explicit-state breadth-first crawl of the implementation: states = (protocol, advertised link), transitions = local links parsed out of each real listing by independent parsers, over a bounded-exhaustive names x kinds content tree",
         text="A tree holding every name of a 30-name alphabet (spaces, reserved URL characters, quotes, markup characters, non-UTF-8 bytes, leading blank; TAB/LF/trailing blank for URL-based protocols) as every kind of object, plus all directory x child pairs, "
